@@ -10,3 +10,4 @@ import LLBuild.Props.EngineImplTerm
 import LLBuild.Props.EngineImplAsync
 import LLBuild.Props.EngineImplSched
 import LLBuild.Props.EngineImplSched2
+import LLBuild.Props.EngineImplSched5
